@@ -26,6 +26,7 @@ package rfc3961
 //@   trusted_frame returned slices are not tracked as fresh; in-place append into spare capacity cannot be excluded
 //@ func crypto/rfc3961.VerifyIntegrity(key, ct, pt, usage, e) (ok)
 //@   pure
+//@   requires et_known(tagof(e))
 //@   trusted_frame returned slices are not tracked as fresh; in-place append into spare capacity cannot be excluded
 //@ func crypto/rfc3961.DeriveRandom(key, usage, e) (r, err)
 //@   pure
@@ -33,17 +34,22 @@ package rfc3961
 //@   requires len(usage) > 0
 //@   requires et_known(tagof(e))
 //@   ensures err == nil ==> len(r) == et_seedbits(tagof(e)) / 8
+//@   ensures err == nil ==> bytes(r) == et_dr(tagof(e), bytes(key), bytes(usage))
+//@   trusted_ensures 1 the DR feedback loop and n-fold are not related to the RFC text here (et_dr is uninterpreted at this level; C08)
 //@   loop 1 invariant 0 <= i && i <= len(out) && len(K) > 0 && et_encok(tagof(e), len(key), len(K))
 //@ func crypto/rfc3961.DeriveKey(protocolKey, usage, e) (k, err)
 //@   pure
 //@   trusted_frame returned slices are not tracked as fresh; in-place append into spare capacity cannot be excluded
 //@   requires len(usage) > 0
-//@   requires et_known(tagof(e))
+//@   requires tagof(e) == typeid("crypto.Des3CbcSha1Kd") || tagof(e) == typeid("crypto.Aes128CtsHmacSha96") || tagof(e) == typeid("crypto.Aes256CtsHmacSha96")
+//@   ensures err == nil ==> bytes(k) == et_dk(tagof(e), bytes(protocolKey), bytes(usage))
 //@ func crypto/rfc3961.DES3RandomToKey(b) (k)
 //@   pure
 //@   trusted_frame returned slices are not tracked as fresh; in-place append into spare capacity cannot be excluded
 //@   requires len(b) >= 21
 //@   ensures len(k) == 24
+//@   ensures bytes(k) == des3_r2k(bytes(b))
+//@   trusted_ensures 1 des3_r2k is uninterpreted at this level; the bit-level RFC 3961 6.3.1 definition is related in C08
 //@ func crypto/rfc3961.DES3StringToKey(secret, salt, e) (k, err)
 //@   pure
 //@   requires len(secret) + len(salt) > 0
